@@ -181,7 +181,16 @@ def run(rep, tier, seed, replay=None):
             cid = f"b{i}x{k}"
             phase2.append(f"{cid} idcheck {table_for([nm])} {hx(x)}:{hx(nm)}")
             expect[cid] = ("accept", nm, x)
-            for v, near in enumerate([x.upper() if x.upper() != x else x + "x", x + "2", x[:-1] or "q"]):
+            # ids one could read out of a PART of the name (what follows each dash, the words before it): accepted only
+            # if the checker reports them
+            parts = []
+            if k == 0 and "-" in nm:
+                for mdash in re.finditer("-", nm):
+                    for piece in (nm[mdash.end():], nm[:mdash.start()]):
+                        ws = re.findall(r"[A-Za-z0-9]+", re.sub(r"\([^)]*\)", "", piece))
+                        if ws:
+                            parts += ["".join(w.lower() for w in ws), "".join(w[0].lower() for w in ws), ws[0].lower(), ws[-1].lower()]
+            for v, near in enumerate([x.upper() if x.upper() != x else x + "x", x + "2", x[:-1] or "q"] + sorted(set(parts))[:12]):
                 if near and near not in a:
                     cid2 = f"b{i}x{k}n{v}"
                     phase2.append(f"{cid2} idcheck {table_for([nm])} {hx(near)}:{hx(nm)}")
